@@ -58,8 +58,8 @@ claim("C22", "Proof, over every control-flow path of handleUnary, handleStreamIn
       "admitted(r) is a ghost predicate whose only source is authenticate's result (establishes clause).", ["the route table itself (that no other registered route reaches sensitive code) is checked by reading initRoutes, not yet by an obligation", "session-delete and page routes are outside by the property's own allow-list"])
 claim("C25", "Proof that VerifyProof computes and compares the MAC and records the nonce only inside the two-sided timestamp window, over exactly this proof's fields and this worker's origin, after the MAC matched; that the nonce cache TTL covers the whole acceptance window (lemma nonceWindowCovered + call-site obligation); that in require mode the inner authenticator is reachable only after a verified proof; proof of the replay cache itself (checkAndAdd): a remembered nonce whose entry has not expired is refused, entries leave only when expired or when the cache is full, the map/list representation invariant (object invariant over fields encapsulated in newNonceCache/checkAndAdd, checked package-wide) is kept; regex lemmas pin the five field grammars to reference languages.",
       "HMAC/ConstantTimeCompare idealisation; clock readings at or after 1970; container/list contracts over its own len/list fields (trusted/containers.spec); the clock callback does not touch the cache.", ["canonical-string injectivity (proofCanonicalString layout) not yet under contract", "order of eviction (container/list is modelled without order: Front/Back return some element)"])
-claim("C27", "Proof that unpackOAuthCookie is panic-free for every cookie string, parses fields only after the MAC verified and keeps every field inside the payload; proof of packOAuthCookie's payload layout; the length-prefix exactness obligations fail for fields >= 64 KiB and are recorded as a known finding.",
-      "HMAC/base64 idealisation.", ["validateReturnTo / validateOriginalURL and the callback gates are not under contract yet", "round-trip lemma over the two layouts"])
+claim("C27", "Proof that unpackOAuthCookie is panic-free for every cookie string, parses fields only after the MAC verified and keeps every field inside the payload; proof of packOAuthCookie's payload layout; the length-prefix exactness obligations fail for fields >= 64 KiB and are recorded as a known finding; proof that validateOriginalURL returns the prefix, '/' or an at most 2048-byte URL and validateReturnTo '' or the unchanged, at most 2048-byte, http(s) URL that is http-localhost or allow-listed, and that the production caller packs only those validated values (so every field fits its length prefix whenever the server prefix is at most 2048 bytes).",
+      "HMAC/base64 idealisation.", ["the callback handler's state comparison and redirect construction (handleOAuthCallback) are not under contract yet", "round-trip lemma over the two layouts"])
 
 claim("C33", "Proof (data-flow contracts) that the unique part of every S3 and GCS object key is rendered from a fresh random source: s3.generateUUID formats bytes obtained from crypto/rand, S3Storage.Upload and GCSStorage.Upload build the key as prefix + that text (+ extension).",
       "crypto/rand.Read and uuid.New return values that differ from all others (standard idealisation, trusted/storage.spec).", ["that the storage service does not alias distinct keys"],
@@ -120,6 +120,10 @@ claim("C39", "Proof of the sampler's decision table (rate 1 keeps everything, er
 claim("C06", "Proof of the output collector's one-data-batch rule (object invariant dataBatchIdx == -1 or a valid index, over fields written only by the collector's own functions — checked package-wide): a second Emit is refused and changes nothing, the first records its index, Finish is refused exactly on an exchange collector, validate fails exactly when no data batch was emitted, ClientLog appends one batch and leaves the data index alone; and over the lockstep loop of serveStream that no turn has failed at the loop head, that every exception batch written is the first one and echoes the request id, and that a stream error returned from the loop was answered with an exception batch.",
       "the emit interceptor callback is assumed not to touch the collector; arrow-go constructors / reference counts do not reach into this package's heap (assumed externs, under which emptyBatch's frame is proved).",
       ["one data batch per input in input order as a statement about the wire (call order in the code only)", "header stream before data", "the cancel hook's at-most-once (single call site in a recovering literal; covered by the replay witnesses)"])
+
+claim("C24", "Proof that the bearer extractor hands the validator exactly what follows 'Bearer ' and only for a header with that prefix; that the static-token validator returns the identity of a configured token equal to the presented one byte for byte (constant-time compare over every entry, first equal entry wins) and refuses with a ValueError when none is equal; and that the XFCC splitter follows the header grammar's scanner for every input — a quote toggles the quoted state, inside quotes a backslash takes the next character with it, nothing else changes the state — and cuts exactly at delimiters met outside quotes (loop invariant against a scanner specified by axioms).",
+      "ConstantTimeCompare(a,b)==1 iff equal bytes (assumed); a token configured with a nil identity authenticates nobody.",
+      ["the contents of the split parts (strings.Builder)", "URL-decoding of XFCC fields and CN extraction (regexp based)", "BearerAuthenticateStatic's construction of the entry list from the map"])
 
 # properties not claimed: reason
 NOT_APPLICABLE = {
